@@ -36,6 +36,8 @@ func main() {
 	switch flag.Arg(0) {
 	case "route":
 		code = scenarioRoute()
+	case "relay":
+		code = scenarioRelay()
 	default:
 		fmt.Println("unknown scenario", flag.Arg(0))
 		code = 2
